@@ -1,1 +1,5 @@
 import SlimProofs.WF
+import SlimProofs.Order
+import SlimProofs.Runs
+import SlimProofs.BuildInv
+import SlimProofs.Shape
